@@ -86,7 +86,8 @@ TStep ==
                 /\ MetaOK(src.m) /\ src.m.times_ok /\ src.m.vglvls_exact) =>
                /\ ChkT(tr, l + 1, "C11: metadata of the window missing or not representable", MetaOK(g.m) /\ g.m.times_ok /\ g.m.vglvls_exact)
                /\ ChkS(tr, l + 1, "C11 window does not keep referencing", WindowDiag(src.f, src.m, e.args, g.f, g.m))
-          /\ (EnfC02 /\ e.act = "slice" /\ ~MultiList(e.args) /\ Dom_slice(src.f, e.args) /\ MetaOK(src.m) /\ HasDim(src.f, "TSTEP")) =>
+          /\ (EnfC02 /\ e.act = "slice" /\ ~MultiList(e.args) /\ Dom_slice(src.f, e.args) /\ MetaOK(src.m) /\ HasDim(src.f, "TSTEP")
+                /\ HasVar(src.f, "TFLAG")) =>
                ChkS(tr, l + 1, "C02 slice: time flags of the result", TflagSelDiag(src, e.args, g))
      /\ (l + 1 = Len(tr.steps) => TrAccept(tr))
 
